@@ -153,6 +153,7 @@ func cmdCheck(args []string) int {
 	only := fs.String("only", "", "only obligations whose name contains this")
 	keep := fs.Bool("keep", false, "keep query files")
 	noEvidence := fs.Bool("no-evidence", false, "do not write the evidence file")
+	noRep := fs.Bool("no-replay", false, "do not replay failures or write replay files")
 	verbose := fs.Bool("v", false, "print every obligation with its result")
 	fs.Parse(args)
 	if *tier == "" {
@@ -182,6 +183,7 @@ func cmdCheck(args []string) int {
 		return 2
 	}
 	prog.curProp = *prop
+	noReplay = *noRep
 	timeout := 30 * time.Second
 	if *tier == "thorough" {
 		timeout = 90 * time.Second
